@@ -1,13 +1,13 @@
 SPECIFICATION Spec
 CONSTANTS
   PIDS = {256, 257}
-  Period = 2
-  MaxOps = 4
+  Period = 3
+  MaxOps = 5
   Dev = {}
-  LENS = {1, 171, 355}
-  HDRS = {"pts"}
-  AFS = {"none", "raipcr", "big"}
-  PKTS = {"null", "toobig"}
+  LENS = {1, 170, 171, 355}
+  HDRS = {"pts", "none", "full"}
+  AFS = {"none", "raipcr", "priv10", "big"}
+  PKTS = {"null", "toobig", "pcr"}
 VIEW View
 ACTION_CONSTRAINT ExportEdge
 CHECK_DEADLOCK FALSE
